@@ -214,7 +214,7 @@ func (f *frame) callInner(x *ssa.Call, cc *ssa.CallCommon, pc *Term, st State) {
 			setRes(f.applyContract(sp, callee, args, pc, st, x, cc, resType))
 			return
 		}
-		if len(callee.Blocks) > 0 && f.depth < maxInlineDepth && !f.inChain(callee) && !hasLoops(callee) && instrCount(callee) <= 400 && !noInline[name] {
+		if len(callee.Blocks) > 0 && f.depth < maxInlineDepth && !f.inChain(callee) && !hasLoops(callee) && instrCount(callee) <= f.inlineLimit() && !noInline[name] {
 			g := c.newFrame(callee, nil, f)
 			if len(bindings) > 0 {
 				g.free = map[ssa.Value]Val{}
@@ -586,7 +586,11 @@ func (f *frame) abstractCall(callee *ssa.Function, cc *ssa.CallCommon, pc *Term,
 	if ms.all {
 		c.havocAll(st)
 	}
+	kept := f.preservedHeaps(callee)
 	for _, h := range ms.list() {
+		if kept[h] {
+			continue
+		}
 		c.havocHeap(st, h)
 	}
 	c.bumpAlloc(st)
